@@ -108,6 +108,7 @@ def run(check, ctx):
              expected="documented meaning of the third positional argument")
     from . import c02_extra
     c02_extra.run(check, ctx)
+    c02_extra.keywrap_rows(check, repo)
     # decrypt() inverts encrypt() also in place: the MAC/cipher order of the AEAD modes
     from .c09_extra import run_order, AEAD
     for modname, cls, macs, sink in AEAD:
